@@ -86,9 +86,9 @@ def run(ck, fb):
         sd = util.sends(dn, r'InstanceDelayNotifyRequest$')
         UT = 'rnacos::naming::model::UpdateInstanceType'
         for arm, want in (('New', 'UpdateInstance'), ('UpdateValue', 'UpdateInstance'), ('Remove', 'RemoveInstance')):
-            ok = any(v == want and (UT, arm) in util.variant_guards(dn, s.bb) for (s, mm, v, a) in sd)
+            ok = any(v == want and util.variant_may_be(dn, s.bb, UT, arm) for (s, mm, v, a) in sd)
             ck.require(ok, 'R15c', 'do_notify:%s->%s' % (arm, want), dn.where(), 'a local %s is not announced to the other nodes' % arm)
-            sub = [s for s in util.mut_calls_on_field(dn, 'subscriber', r'::notify$') if (UT, arm) in util.variant_guards(dn, s.bb)]
+            sub = [s for s in util.mut_calls_on_field(dn, 'subscriber', r'::notify$') if util.variant_may_be(dn, s.bb, UT, arm)]
             ck.require(len(sub) >= 1, 'R15c', 'do_notify:%s->subscribers' % arm, dn.where(), 'local subscribers are not notified of %s' % arm)
     nu = ck.body(NA + 'update_instance', 'R15c')
     if nu:
@@ -116,11 +116,12 @@ def run(ck, fb):
         ck.require(ok, 'R15c', 'notify_heartbeat:flush+rearm', hb.where(), 'the batch flush driver does not flush and re-arm on every path')
     dd = ck.body(DN + 'do_notify', 'R15c')
     if dd:
-        ag = dd.aggregates(r'SyncBatchForSend$')
-        ck.require(len(ag) == 1, 'R15c', 'delay.do_notify:batch', dd.where(), 'batch not built')
-        sd = util.sends(dd, r'NodeManageRequest$', 'SendToOtherNodes')
-        ck.require(len(sd) == 1, 'R15c', 'delay.do_notify:SendToOtherNodes', dd.where(), 'the batch is not sent to the other nodes')
-        cl = util.mut_calls_on_field(dd, 'instances_map', r'HashMap::<K, V, S, A>::clear$')
+        reg = util.region(fb, dd)
+        ag = [x for b2 in reg for x in b2.aggregates(r'SyncBatchForSend$')]
+        ck.require(len(ag) >= 1, 'R15c', 'delay.do_notify:batch', dd.where(), 'batch not built')
+        sd = [x for b2 in reg for x in util.sends(b2, r'NodeManageRequest$', 'SendToOtherNodes')]
+        ck.require(len(sd) >= 1, 'R15c', 'delay.do_notify:SendToOtherNodes', dd.where(), 'the batch is not sent to the other nodes')
+        cl = util.mut_calls_on_field(dd, 'instances_map', r'HashMap::<K, V, S, A>::clear$', deep=1)
         ck.require(len(cl) == 1, 'R15c', 'delay.do_notify:clears', dd.where(), 'pending changes are not cleared after the flush (re-sent forever) or cleared elsewhere')
         pushes = dd.calls(r'Vec::<T, A>::push$')
         ck.require(len(pushes) == 2, 'R15c', 'delay.do_notify:both-lists', dd.where(), 'updates and removals are not both collected')
